@@ -2,9 +2,10 @@
 # Sensitivity regression: every hand-made mutant (mutants/Cnn-*.diff) against the quick tier of its check, each in a scratch worktree
 # (tools/altmutant.sh); prints one line per mutant.   tools/mutants_all.sh [pattern]
 cd /verif
-for P in mutants/${1:-C}*.diff; do
+for P in mutants/${1:-}*.diff; do
   ID=$(basename $P | cut -c1-3)
-  case $(basename $P) in M-revert-019b5d8*) ID=C07;; M-revert-stop*) ID=C18;; esac
+  case $(basename $P) in M-revert-019b5d8*) ID=C07;; M-revert-stop*) ID=C18;; M-revert-key-concatenation*) ID=C07;; M-revert-kind-group*) ID=C13;;
+    M-revert-diff-format*) ID=C18;; M-revert-fake-pod*) ID=C12;; M-revert-rejected-anp*) ID=C15;; esac
   OUT=$(tools/altmutant.sh $P $ID 2>&1)
   echo "$(basename $P .diff): $(echo "$OUT" | grep -E "rc=|does not apply|BUILD" | head -1)"
 done
